@@ -162,3 +162,79 @@ def run(F, rep, tier):
                   "impl_horzcat_fxn has no branch for kind(s) %s that impl_vertcat_fxn handles" % miss2, "src/interpreter/src/stdlib/horzcat.rs")
     from rules.loopshape import c11_offset_dimension
     c11_offset_dimension(F, rep)
+    run_r6(F, rep, tier)
+
+
+def run_r6(F, rep, tier="quick"):
+    """block-copy primitives of CopyMat evaluated over a finite table of shapes"""
+    import json
+    from lib.ministmt import Machine, Mat, NoEval, Panic
+    rep.rule("C11-R6", "block copy primitives (CopyMat::copy_into / _v / _r / _row_major), executed over a finite table of block and result shapes: the linear copies write "
+                      "element i of the block to offset+i and return the block length; the row-major copy writes element (i,j) of an r x c block to row offset+i, "
+                      "column j of the column-major result (linear offset + j*R + i) and returns r - exactly once each, nothing else")
+    items = [it for it in F.syn("mech_core.lib") if it["k"] == "method" and it["name"].startswith("copy_into") and "CopyMat" in (it.get("trait") or "") and it.get("body")]
+    distinct = {}
+    for it in items:
+        distinct.setdefault((it["name"], json.dumps(it["body"])), []).append(it)
+    rep.floor("C11-R6", "CopyMat copy methods", len(items), 12)
+    big = tier == "thorough"
+    RS = range(1, 8 if big else 6)
+    CS = range(1, 5 if big else 4)
+    n_eval = 0
+    for (name, _), its in sorted(distinct.items(), key=lambda kv: kv[0][0]):
+        it = its[0]
+        params = [p[0][1] for p in it["sig"]["inputs"][1:] if is_node(p[0]) and p[0][0] == "pident"]
+        if not rep.check(len(params) == 2, "C11-R6", "anchor:%s-signature" % name, "%s does not take (dst, offset): %s" % (name, it["sig"]["inputs"])):
+            continue
+        dstn, offn = params
+        row_major = name.endswith("row_major")
+        bad = None
+        undecided = None
+        for r in RS:
+            for c in CS:
+                for extra in range(0, 4):
+                    for off in range(0, extra + 1):
+                        if row_major:
+                            R, C = r + extra, c
+                            start = off
+                            exp = {start + j * R + i: ("elem", "src", j * r + i) for j in range(c) for i in range(r)}
+                            exp_ret = r
+                        else:
+                            R, C = r * c + extra, 1
+                            exp = {off + i: ("elem", "src", i) for i in range(r * c)}
+                            exp_ret = r * c
+                        m = Machine({"self": Mat("src", r, c), dstn: Mat("dst", R, C), offn: off})
+                        try:
+                            ret = m.block(it["body"])
+                        except NoEval as e:
+                            undecided = str(e)
+                            break
+                        except Panic as e:
+                            bad = "block %dx%d into a result with %d rows at offset %d: panics (%s)" % (r, c, R, off, e)
+                            break
+                        n_eval += 1
+                        got = {}
+                        dup = False
+                        for (mn, ix, v) in m.writes:
+                            if mn != "dst" or ix in got:
+                                dup = True
+                            got[ix] = v
+                        if got != exp or dup or ret != exp_ret:
+                            wrong = sorted(k for k in set(got) | set(exp) if got.get(k) != exp.get(k))[:4]
+                            bad = "block %dx%d into a column-major result with %d rows at offset %d: writes differ at linear positions %s (wrote %s, expected %s), returns %s (expected %s)" % (
+                                r, c, R, off, wrong, [got.get(k) for k in wrong], [exp.get(k) for k in wrong], ret, exp_ret)
+                            break
+                    if bad or undecided:
+                        break
+                if bad or undecided:
+                    break
+            if bad or undecided:
+                break
+        if undecided:
+            rep.bad("C11-R6", "undecided:%s" % name, "%s could not be evaluated over the shape table (%s): the placement of concatenated blocks is no longer decided" % (name, undecided), "CopyMat::%s (mech_core.lib)" % name)
+            continue
+        rep.check(bad is None, "C11-R6", "%s" % name if bad is None else "%s:misplaces" % name,
+                  "CopyMat::%s (%d impls) %s - a concatenated block does not land where it is written" % (name, len(its), bad), "CopyMat::%s (mech_core.lib)" % name,
+                  sample={"method": name, "impls": [x["self"] for x in its], "table": "r in %s, c in %s, slack 0..3, offset 0..slack" % (list(RS), list(CS))})
+    rep.floor("C11-R6", "distinct copy bodies decided", len(distinct), 4)
+    rep.floor("C11-R6", "shape-table evaluations", n_eval, 400)
